@@ -239,7 +239,7 @@ def lookup_residual_unit(ctx, res, col, reg):
 
     def setup(ex, env):
         k = zint(env["keyid"])
-        ex.st.assume(mk_bool(z3.And(k >= (1 << 28), k < (1 << 32))))  # 8 hex digits: the size code is the first one
+        # every integer that is not a documented key ID (negative, narrower and wider than 32 bits included)
         ex.st.assume(mk_bool(z3.And(*[k != i for i in kids])))
 
     c1 = Contract(ck.qualname, params={"keyid": "int"}, requires=ck.requires, ensures=ck.ensures, raises=ck.raises,
@@ -281,9 +281,10 @@ def replay_lookup(o):
         for b in range(32):
             cands.append(k ^ (1 << b))
     cands += [rnd.randrange(1 << 28, 1 << 32) for _ in range(20000)]
+    cands += list(range(0, 70)) + [d << s_ for d in range(1, 16) for s_ in range(0, 36, 4)] + [-1, -(1 << 28), 1 << 32, (1 << 32) + 5]
+    cands += [rnd.randrange(0, 1 << 28) for _ in range(5000)]
     for k in cands:
-        if not (1 << 28) <= k < (1 << 32) and k not in kids:
-            continue
+
         try:
             want = ("ok", n_cfgkey2name_spec(k))
         except KeyError:
